@@ -199,7 +199,8 @@ class DualQuaternion:
                 return DualQuaternion(real, dual)
         elif isinstance(left, UnitDualQuaternion) and base.isvector(right, 3):
             v = base.getvector(right, 3)
-            vp = left * DualQuaternion.Pure(v) * left.conj()
+            # sandwich with the conjugate that also negates the dual unit: (r* - e d*)
+            vp = left * DualQuaternion.Pure(v) * DualQuaternion(left.real.conj(), -1 * left.dual.conj())
             return vp.dual.v
 
     def matrix(self):
